@@ -185,6 +185,11 @@ def churn_shard(shard, nshards, seed, tier, exe, nhist):
                     # the process-wide string hash is switched while the object is alive: existing objects must keep answering (new ones use the new function)
                     cmds.append("HASHFN %d" % (1 - hashfn))
                     plan.append(("hashfn",))
+                    if rng.random() < 0.5:
+                        # ... and back: re-selecting the function the live object was built under is a configuration call like any other (no new seed, no new anything)
+                        cmds.append("HASHFN %d" % hashfn)
+                        plan.append(("hashfn",))
+                        sh.count("string_hash_reselected_while_objects_alive")
                 if j % every == 0 or j == nops - 1:
                     cmds += ["OKEYS 0", "OLEN 0", "OSER 0"]
                     plan.append(("snap", list(model.items())))
